@@ -8,6 +8,7 @@ import numpy as np
 from .. import env  # noqa: F401
 from ..core import Phase, Result
 from .. import containerops as CO
+from ..represent import Rep, tapes, cycle_tape
 from ..util import attempt, same_array
 
 import fsic
@@ -127,12 +128,15 @@ def via_name(amap, var, via):
     return names[via % len(names)]
 
 
-def apply(m, op, amap, labels, aliased):
+def apply(m, op, amap, labels, aliased, rep=None):
     n = len(labels)
 
     def nm(vi, via):
         var = VARS[vi % len(VARS)]
-        return via_name(amap, var, via) if aliased else var
+        if not aliased:
+            return var
+        name = via_name(amap, var, via)
+        return rep.str(name) if rep is not None else name      # np.str_ / a str subclass name the same alias
     k = op[0]
     if k == 'setattr':
         return attempt(setattr, m, nm(op[1], op[2]), CO.dec_operand(op[3]))
@@ -204,9 +208,10 @@ def check_case(case):
     m = value
     twin = Plain(labels, **kw_plain)
     ops = case.get('ops') or []
+    rep = Rep(case.get('rep'))
     wrote_via_alias = False
     for i, op in enumerate(ops):
-        r1 = apply(m, op, amap, labels, True)
+        r1 = apply(m, op, amap, labels, True, rep)
         r2 = apply(twin, op, amap, labels, False)
         if op[0] not in ('solve', 'replace_values') and len(op) > 2 and op[0] != 'read-label':
             var = VARS[op[1] % 4]
@@ -333,6 +338,8 @@ def gen_maps(max_entries):
             case = {'aliases': amap, 'preferred': prefs[i % len(prefs)], 'n': 4, 'labels': 'alias-names' if i % 3 == 1 else 'int',
                     'init': [[0, 1, [1.0, 2.0, 3.0, 4.0]]] if i % 2 else [], 'ops': BASIC_OPS[i % 3:] + BASIC_OPS[:i % 3]}
             yield case
+            if keys and i % 5 == 0:
+                yield dict(case, rep=[1 + (i // 5) % 2])
             if len(keys) >= 2 and i % 4 == 0:
                 # the instance-level list is edited after construction: all names of the map at once (ambiguous when two
                 # of them share a variable), then a single one
@@ -381,6 +388,7 @@ def strategy():
         init = draw(st.lists(st.tuples(vi, via, st.lists(scal, min_size=n, max_size=n)).map(list), max_size=2, unique_by=lambda x: x[0] % 4))
         case = {'aliases': [list(x) for x in amap], 'preferred': preferred, 'n': n, 'init': init,
                 'labels': draw(st.sampled_from(['int', 'int', 'alias-names'])), 'ops': draw(st.lists(op, max_size=10))}
+        case['rep'] = draw(tapes())
         if draw(st.integers(0, 2)) == 0:
             case['preferred_after'] = [draw(st.sampled_from(['assign', 'in-place'])),
                                        draw(st.lists(st.sampled_from(names), max_size=4, unique=True))]
